@@ -228,6 +228,25 @@ func Gen(r *vh.Rng, flavour string) Case {
 		stopPct = 15
 	}
 	ni := 2 + r.Intn(10)
+	if r.Chance(12) {
+		// a share of the histories uses a cached sub-computation in one run, leaves it out in the next (the child
+		// is released with the superseded computation), changes the child's resource meanwhile and asks for the
+		// key again: a released entry must not be served
+		ri := r.Intn(nr)
+		if c.Slots < 2 {
+			c.Slots = 2
+		}
+		s0 := r.Intn(c.Slots)
+		s1 := (s0 + 1 + r.Intn(c.Slots-1)) % c.Slots
+		key := 50 + r.Intn(3)
+		c.RRs[ri].Prog = append([]Op{{Kind: "dep", Slot: s0}}, c.RRs[ri].Prog...)
+		c.RRs[ri].Prog = append(c.RRs[ri].Prog, Op{Kind: "cache", Key: key, Alt: true, Body: []Op{{Kind: "dep", Slot: s1}}})
+		gap := 1500 + r.Intn(3000) + 2*c.RRs[ri].IntervalUs
+		kind := func() string { return []string{"strobe", "invalidate"}[r.Intn(2)] }
+		c.Injs = append(c.Injs, Inj{Kind: kind(), Target: s0, DelayUs: gap}, Inj{Kind: kind(), Target: s1, DelayUs: gap},
+			Inj{Kind: kind(), Target: s0, DelayUs: gap})
+		ni = r.Intn(4)
+	}
 	for i := 0; i < ni; i++ {
 		c.Injs = append(c.Injs, genInj(r, &c, stopPct))
 	}
